@@ -215,6 +215,18 @@ def evaluate(ctx, results, tag):
     if not all(s["finite"] for s in r["steps"]):
       r["exc"] = "non-finite update from finite gradients (blocked / separate / with companions)"
       continue
+    if r["case"]["kind"] == "ds":
+      # the largest-eigenvalue estimate that scales the relative ridge of a statistic's root is a
+      # function of that statistic alone: the same statistics (bitwise, checked in Coq) must give the
+      # same estimate with and without companions (which only change the zero padding).  The roots
+      # themselves are compared within a conditioning slack that is vacuous exactly where the ridge
+      # matters, hence this direct comparison (added after a seeded change was missed).
+      for t, st in enumerate(r["steps"]):
+        a, p = st["A"].get("maxev") or [], st["P"].get("maxev") or []
+        if len(a) == len(p) and st["A"]["stats"] == st["P"]["stats"]:
+          for j, (x, y) in enumerate(zip(a, p)):
+            if x > 0 and y > 0 and abs(x - y) > 1e-3 * max(x, y):
+              r.setdefault("maxev_dep", []).append(dict(step=t, statistic=j, alone=x, with_companions=y))
     terms.append(ds_term(r) if r["case"]["kind"] == "ds" else tf_term(r))
     idx.append(i)
   vals = ctx.coq_eval(tag, HEADER, terms, per_shard=max(2, len(terms) // (3 * common.NPROC) + 1),
@@ -284,6 +296,14 @@ def report(ctx, results):
       ctx.count(nm, v)
     if not all(s["finite"] for s in r["steps"]):
       ctx.count("nonfinite_update")
+    if r.get("maxev_dep") and ("ds", "maxev") not in seen:
+      seen.add(("ds", "maxev"))
+      ctx.violation("impl-violates", dict(
+          input=case, expected="the largest-eigenvalue estimate of a statistic (it scales the relative ridge "
+          "matrix_epsilon * max_ev of its root) does not depend on companion parameters",
+          actual=r["maxev_dep"][:6],
+          theorem_or_check="implementation-side monitor: max_eigen_value diagnostics, blocked tensor alone vs "
+          "with companions (bitwise-equal statistics); c08_ds_param_local"))
     if r["code"] == 0:
       continue
     step, cc = divmod(r["code"], 100)
